@@ -3,13 +3,16 @@ SPEC = {
     "lean_props": ["TunnoxModel.Props.C01"],
     "harness": {
         "pkg": "c01",
-        "shims": {"stream": "internal/stream"},
-        "runs": [{"args": ["-mode", "rt"], "corpus": "rt"}],
+        "shims": {"stream": "internal/stream", "adapter": "internal/protocol/adapter"},
+        "runs": [{"args": ["-mode", "rt"], "corpus": "rt"}, {"args": ["-mode", "ws"], "corpus": "rtw"}],
     },
     "rule": ("round-trip cases: packet sequences (all 64 base types x compression x body sizes incl. 0) written by the real "
              "WritePacket and read back by the real ReadPacket through a chunk-controlled reader; chunkings: every single "
              "cut position of short encodings, 1-byte reads, random partitions; a case is non-trivial when the stream is "
-             "cut at least once; distinct = distinct (types, compression, body lengths, chunk sizes)"),
+             "cut at least once; distinct = distinct (types, compression, body lengths, chunk sizes). WebSocket run: the "
+             "same cases with the chunks sent as real WebSocket binary messages (gorilla, loopback) and read back through "
+             "the repository's wsServerConn / wsClientConn under ReadPacket: message-per-write, one message per packet, "
+             "everything in one message, single cuts, random partitions, several buffered tails per connection"),
     "trusted_base": [
         "Lean 4.33 kernel; axioms propext, Classical.choice, Quot.sound only (audited per theorem on every run)",
         "extractor /verif/extract (go/ast): constants and packet.Type predicates regenerated into Gen/*.lean",
